@@ -6,4 +6,4 @@ Definition keep_types : (N * Z * nat) := (0%N, 0%Z, 0%nat).
 Extraction "c20m.ml" keep_types beq full_match rprint pat_print route_match route_ok nparams route_fill route_template
   params_okb pat_match dispatch app_main mp_match pool_lookup route_request parse_tmpl app_table build_ok
   real_map map_output map_at mounts_once build loc_of valid_text
-  rw_parse mk_rule rw_apply.
+  rw_parse mk_rule rw_apply urldecode pick_script serve.
